@@ -371,12 +371,15 @@ func (rp *RepData) loadFromJSON(logger *slog.Logger, vodFS fs.FS, repDataDir, as
 }
 
 func (rp *RepData) addRegExpAndInit(logger *slog.Logger, vodFS fs.FS, assetPath string) error {
+	// The whole path must match, literally apart from the number: otherwise "V300/1.m4s" also matches a request
+	// for "HV300/1.m4s", and which representation answers depends on the iteration order of the map.
+	quotedURI := regexp.QuoteMeta(rp.MediaURI)
 	switch {
 	case strings.Contains(rp.MediaURI, "$Number$"):
-		rexStr := strings.ReplaceAll(rp.MediaURI, "$Number$", `(\d+)`)
+		rexStr := "^" + strings.ReplaceAll(quotedURI, regexp.QuoteMeta("$Number$"), `(\d+)`) + "$"
 		rp.mediaRegexp = regexp.MustCompile(rexStr)
 	case strings.Contains(rp.MediaURI, "$Time$"):
-		rexStr := strings.ReplaceAll(rp.MediaURI, "$Time$", `(\d+)`)
+		rexStr := "^" + strings.ReplaceAll(quotedURI, regexp.QuoteMeta("$Time$"), `(\d+)`) + "$"
 		rp.mediaRegexp = regexp.MustCompile(rexStr)
 	default:
 		return fmt.Errorf("neither $Number$, nor $Time$ found in media")
